@@ -226,6 +226,10 @@ def expected(spec):
                     data = first['data'][lo:hi]
                     iu = (first['attrs'].get('units') or {}).get('v')
                     iu = getattr(iu, 'value', iu) or ''
+                    # user-supplied index characteristics without units take the index channel's units
+                    for lab in ('INDEX-MIN', 'INDEX-MAX', 'SPACING'):
+                        if attrs[lab] is not None and not attrs[lab]['units']:
+                            attrs[lab] = dict(attrs[lab], units=iu)
                     if first.get('index_like') == 'uniform':
                         exp = {'INDEX-MIN': float(data.min()), 'INDEX-MAX': float(data.max())}
                         if n > 1:
@@ -234,11 +238,13 @@ def expected(spec):
                             if attrs[lab] is None:
                                 attrs[lab] = {'count': 1, 'rc': 7, 'units': iu, 'vals': [f64tok(val)]}
                         if n == 1:
-                            attrs['SPACING'] = 'ANY'
+                            if attrs['SPACING'] is None:
+                                attrs['SPACING'] = 'ANY'
                             attrs['DIRECTION'] = 'ANY'
                     else:
                         for lab in ('INDEX-MIN', 'INDEX-MAX', 'SPACING', 'DIRECTION'):
-                            attrs[lab] = 'ANY'
+                            if attrs[lab] is None:
+                                attrs[lab] = 'ANY'
                 layout = [(DT_SIZE[c.get('cast_dtype') or c['dtype']], c['width'] or 1) for c in chans]
                 rows_bits = []
                 for i in range(lo, hi):
